@@ -98,6 +98,12 @@ type WorkerOut struct {
 	Hashes       map[string]uint64 `json:"hashes,omitempty"` // determinism mode: run -> log hash
 	Replayed     *RunResult        `json:"replayed,omitempty"`
 	ShrinkRuns   int               `json:"shrink_runs,omitempty"`
+	// NextFrom > 0: the worker stopped before its range or wall budget was used up because its
+	// memory grew past the limit (goroutines blocked for ever in finished bubbles are never
+	// freed); the orchestrator continues from this run in a fresh process.
+	NextFrom   int `json:"next_from,omitempty"`
+	SysMB      int `json:"sys_mb"`
+	Goroutines int `json:"goroutines_at_exit"`
 }
 
 func (r *RunResult) Signature() string {
